@@ -23,3 +23,35 @@ def get(pid):
 
 # properties not claimed (kept current by hand): id -> reason
 NA = {}
+
+PROPS["C04"] = dict(
+    level="proof",
+    explanation="SimTimeCondition.evaluate and TimeOfDayCondition.evaluate are executed symbolically from the real source for every "
+                "relation / repeat / first_day case over symbolic integer times; posts are written from the property text "
+                "(fires iff a configured instant lies in (prev, cur], backtrack lands on that instant, range relations true exactly on the interval).",
+    trusted_base=["np.floor on symbolic reals == floor"],
+    not_decided=[],
+    assumptions=["simulation times are integer seconds (run_sim refuses sub-second steps)"],
+)
+
+PROPS["C08"] = dict(
+    level="proof",
+    explanation="leak_constraint.build is executed symbolically for an arbitrary junction/tank name (independent-iteration rule) "
+                "in every (node kind, leak_status, isolated, fresh/update) case; post: the registered row denotes leak - lambda(p) with the "
+                "three-branch lambda written from the property text; key-domain safety obligations are generated automatically.",
+    trusted_base=[AML_TRUST], not_decided=[], assumptions=[],
+)
+
+PROPS["C07"] = dict(
+    level="proof",
+    explanation="pdd_constraint.build executed symbolically for an arbitrary junction; the row denotes d - D*ghat(p) with the five-branch "
+                "ghat written from the documentation; pmin/pnom/pdd_poly_coeffs params and cubic_spline under contract; lemma: continuity at the "
+                "four joins, values at/below Pmin and at/above Preq, monotonicity, per-junction override frame.",
+    trusted_base=[AML_TRUST], not_decided=[], assumptions=[],
+)
+PROPS["C01"] = dict(
+    level="proof",
+    explanation="mass-balance builders proved for arbitrarily many inlet/outlet links via prefix-sum loop invariants; "
+                "store_results/save_results/get_links_for_node/Demands.at under contract (see functions_under_contract).",
+    trusted_base=[AML_TRUST, CPP_TRUST], not_decided=["floating point"], assumptions=[],
+)
